@@ -575,9 +575,10 @@ package fsm
 //@   assumed
 //@   results db, err
 //@   requires p != nil
-//@   ensures err == nil ==> db != nil && p.fs.vHas[dbdir] && (db.vP[bytesOf(sysLocalIndex)] ==> blen(db.vV[bytesOf(sysLocalIndex)]) == 8) && (db.vP[bytesOf(sysLeaderIndex)] ==> blen(db.vV[bytesOf(sysLeaderIndex)]) == 8)
+//@   ensures err == nil ==> db != nil && fresh(db) && p.fs.vHas[dbdir] && p.fs.opened[dbdir] && (db.vP[bytesOf(sysLocalIndex)] ==> blen(db.vV[bytesOf(sysLocalIndex)]) == 8) && (db.vP[bytesOf(sysLeaderIndex)] ==> blen(db.vV[bytesOf(sysLeaderIndex)]) == 8)
 //@   ensures forall q string :: old(p.fs.vHas[q]) ==> p.fs.vHas[q]
-//@   modifies p.fs.vHas
+//@   ensures forall q string :: old(p.fs.opened[q]) ==> p.fs.opened[q]
+//@   modifies p.fs.vHas, p.fs.opened
 //@ iface vfs.FS.Stat
 //@   assumed
 //@   modifies nothing
@@ -601,4 +602,82 @@ package fsm
 //@   requires [restart] p.fs.vCur[p.dirname] == p.fs.dCur[p.dirname] && (p.fs.dCur[p.dirname] != "" ==> p.fs.vHas[pjoin(p.dirname, p.fs.dCur[p.dirname])])
 //@   requires [inv] recoverable(p.fs, p.dirname)
 //@   ensures [C04.open.recoverable] recoverable(p.fs, p.dirname)
-//@   modifies p.fs.vHas, p.fs.dHas, p.fs.dCur, p.fs.vCur, p.fs.updName, p.pebble.v
+//@   modifies p.fs.vHas, p.fs.dHas, p.fs.dCur, p.fs.vCur, p.fs.updName, p.fs.opened, p.pebble.v
+
+// ---------------------------------------------------------------- in-cluster snapshots (C08)
+
+//@ import binary "encoding/binary"
+//@ import fsm "github.com/jamf/regatta/storage/table/fsm"
+//@ import io "io"
+
+// the format byte of the 8-byte snapshot header
+//@ func (*snapshotHeader).setSnapshotType
+//@   requires s != nil
+//@   ensures [C08.header.set] (*s)[6] == recoveryType && forall j int :: 0 <= j && j < 8 && j != 6 ==> (*s)[j] == old((*s)[j])
+//@   modifies elems(s)
+//@ func (*snapshotHeader).snapshotType
+//@   requires s != nil
+//@   ensures [C08.header.get] result == (*s)[6]
+//@   modifies nothing
+//@ func (*snapshot).getHeader
+//@   ensures [C08.header.snapshot] result[6] == 0
+//@   modifies nothing
+//@ func (*checkpoint).getHeader
+//@   ensures [C08.header.checkpoint] result[6] == 1
+//@   modifies nothing
+
+// the recoverer for a format: snapshot format 0, checkpoint format 1, anything else is refused (panic)
+//@ func (*FSM).getRecoverer
+//@   maypanic
+//@   requires p != nil
+//@   ensures [C08.recoverer.type] (recoveryType == 0 ==> typeIs(result, *snapshot) && asType(result, *snapshot) != nil && asType(result, *snapshot).fsm == p) && (recoveryType == 1 ==> typeIs(result, *checkpoint) && asType(result, *checkpoint) != nil && asType(result, *checkpoint).fsm == p) && (recoveryType == 0 || recoveryType == 1)
+//@   ensures fresh(asType(result, *snapshot)) || fresh(asType(result, *checkpoint))
+//@   modifies nothing
+
+// dynamic dispatch to the two implementations (each verified on its own below): ASSUMED frames
+//@ iface fsm.snapshotRecoverer.prepare
+//@   assumed
+//@   modifies family(G_any_vP), family(G_any_vV)
+//@ iface fsm.snapshotRecoverer.getHeader
+//@   assumed
+//@   params rc
+//@   ensures (typeIs(rc, *snapshot) ==> result[6] == 0) && (typeIs(rc, *checkpoint) ==> result[6] == 1)
+//@   modifies nothing
+//@ iface fsm.snapshotRecoverer.save
+//@   assumed
+//@   params rc, ctx, w, stopc
+//@   modifies w.sdata, w.slen, w.nmsg, w.msg
+//@ iface fsm.snapshotRecoverer.recover
+//@   assumed
+//@   params rc, r, stopc
+//@   modifies family(G_any_vHas), family(G_any_dHas), family(G_any_dCur), family(G_any_vCur), family(G_any_updName), family(G_any_opened), family(G_any_rest)
+
+// the header as it travels: the writer/reader remember the format byte of the header they carried
+//@ ghostfield any.fmtByte Int
+//@ func binary.Write<fsm.snapshotHeader>
+//@   assumed
+//@   params w, order, data
+//@   results err
+//@   ensures err == nil ==> w.fmtByte == asType(data, fsm.snapshotHeader)[6]
+//@   modifies w.fmtByte, w.sdata, w.slen, w.nmsg, w.msg
+//@ func binary.Read<*fsm.snapshotHeader>
+//@   assumed
+//@   params r, order, data
+//@   results err
+//@   ensures err == nil ==> (*asType(data, *fsm.snapshotHeader))[6] == r.fmtByte && 0 <= r.fmtByte && r.fmtByte < 256
+//@   modifies elems(asType(data, *fsm.snapshotHeader)), r.rest
+
+// SaveSnapshot: the stream starts with a header naming the saver's own format, then that format's body
+//@ func (*FSM).SaveSnapshot
+//@   maypanic
+//@   requires p != nil && w != nil
+//@   ensures [C08.save.header] result == nil ==> w.fmtByte == p.recoveryType
+//@   modifies w.fmtByte, w.sdata, w.slen, w.nmsg, w.msg
+
+// RecoverFromSnapshot: the recoverer is chosen by the format byte of the STREAM's header, whatever
+// format this replica is configured to save in
+//@ func (*FSM).RecoverFromSnapshot
+//@   maypanic
+//@   requires p != nil && r != nil
+//@   before fsm.snapshotRecoverer.recover assert [C08.dispatch] (r.fmtByte == 0 ==> typeIs(rc, *snapshot)) && (r.fmtByte == 1 ==> typeIs(rc, *checkpoint))
+//@   modifies family(G_any_vHas), family(G_any_dHas), family(G_any_dCur), family(G_any_vCur), family(G_any_updName), family(G_any_opened), family(G_any_rest)
